@@ -23,10 +23,10 @@ for ns in (0, 1, 2, 3):
                             shape='%d distinct valid 1-byte members; %s' % (ns, sh)))
 HARNESSES['c14_lim3'] = h(3, limit=3)
 HARNESSES['c14_lim3_n2'] = h(2, limit=3)
-QUERIES.append(dict(name='set_one_below_scaled_limit', harness='c14_lim3_n2', entry='h_set', unwind=18, unwindset=US, rec_unwind=3, timeout=1200, mem_gb=28,
+QUERIES.append(dict(name='set_one_below_scaled_limit', harness='c14_lim3_n2', entry='h_set', unwind=8, unwindset=dict(US, verif_mem=60), rec_unwind=3, timeout=1200, mem_gb=28,
                     optional_reach=['Set of a new key on a full list returns an unchanged copy'],
                     shape='list one member below the member limit (kMaxKeyValuePairs scaled 32 -> 3): a new key must still be accepted'))
-QUERIES.append(dict(name='set_at_scaled_limit', harness='c14_lim3', entry='h_set', unwind=18, unwindset=US, rec_unwind=3, timeout=1200, mem_gb=28,
+QUERIES.append(dict(name='set_at_scaled_limit', harness='c14_lim3', entry='h_set', unwind=8, unwindset=dict(US, verif_mem=60), rec_unwind=3, timeout=1200, mem_gb=28,
                     shape='list already at the member limit (kMaxKeyValuePairs scaled 32 -> 3 in a scratch copy of trace_state.h); Set of present and absent keys'))
 for L in range(0, 8):
     HARNESSES['c14_any%d' % L] = h(0, L)
